@@ -14,7 +14,7 @@ META = {
     "shards": {"quick": 8, "thorough": 4},
     "bounds": {
         "quick": "F-unit K<=5 + type pairs, F-shape, F-bb (connected, unconnected and constant-driven pins, back-to-back boxes), constants 0/1/x, escaped identifiers, outputs that are inputs/constants, 30 random DAGs; behavioral in {False, True}; string round trip and to_file/from_file round trip",
-        "thorough": "same + 300 random DAGs + bundled c17/c432/s27, 8 hash seeds",
+        "thorough": "same + every circuit with 2 inputs and <=2 gates (1078) + 300 random DAGs + bundled c17/c432/s27, 8 hash seeds",
     },
     "outside": ["node names that are not legal Verilog identifiers or collide with the reader's reserved names tie_0/tie_1/tie_x or its synthetic expression names", "circuits outside the families", "text layout (fixed by the writer)"],
     "assumptions": ["sem.py gate / Kleene tables", "z3 sound"],
@@ -35,6 +35,7 @@ def all_cases(ctx):
     cs += F.f_rand(ctx.seed, 30 if ctx.quick else 300)
     if not ctx.quick:
         cs += [(("lib", n), "lib:" + n) for n in ("c17", "c432", "s27")]
+        cs += F.f_small(2)
     return cs
 
 
